@@ -198,9 +198,6 @@ def check_same_image(L, wa, wb, pa=None, pb=None):
                 if not (np.array_equal(ma, mb) and np.allclose(aa, ab, rtol=1e-12, atol=0)
                         and np.max(np.abs(oa - ob)) <= 1e-7 * max(np.max(np.abs(ob)), 1e-30)):
                     res['premise'] = False
-        if not res['premise']:
-            res['detail'] = 'premise does not hold: the two planes do not have the same effective optics'
-            return res
     fa, alla, _ = dense.coverage(wa)
     fb, allb, _ = dense.coverage(wb)
     if fa.shape != fb.shape:
@@ -395,6 +392,11 @@ class PurityScenario(Scenario):
             w1 = nid('w')
             out.append(E('Plane.multiply', ['@' + q, '@W0'], id=w1))
             out.append(E('propagate_dft', ['@' + w1], {'pixelscale': ph['du'], 'shape': [6, 6], 'oversample': 1}))
+            # the tilt-carrying wavefront is kept and sent through the shared Tilt plane more than once
+            for _ in range(rng.randint(1, 2)):
+                wt = nid('w')
+                out.append(E(rng.choice(['Plane.multiply', 'p*w']), ['@TL', '@' + w1], id=wt))
+                out.append(E('propagate_dft', ['@' + wt], {'pixelscale': ph['du'], 'shape': [6, 7], 'oversample': 1}))
             return [out[0]] + rng.sample(out[1:5], rng.randint(1, 4)) + out[5:]
 
         def fit_inplace():
@@ -428,13 +430,8 @@ class PurityScenario(Scenario):
             py = nid('p')
             out.append(E('Pupil', None, {'amplitude': '@A', 'opd': '@' + o, 'mask': '@' + mask, 'pixelscale': ph['dx'],
                                          'focal_length': ph['f']}, id=py))
-            out.append(E('Plane.fit_tilt', ['@' + py], {'inplace': True}, inplace=['@' + py, '@' + o]))
-            cur = nid('o')
-            out.append(E('attr', ['@' + py, 'opd'], id=cur))
-            upd = nid('o')
-            out.append(E('np.add', ['@' + cur, '@B'], id=upd))
-            out.append(E('setattr', ['@' + py, 'opd', '@' + upd], inplace=['@' + py]))
-            out.append(E('Plane.fit_tilt', ['@' + py], {'inplace': True}, inplace=['@' + py, '@' + upd, '@' + o, '@' + cur]))
+            # fit in place, update the OPD attribute, fit in place again -- one atomic step for the minimiser
+            out.append(E('h.refit', ['@' + py, '@B'], inplace=['@' + py, '@' + o], id=nid('p')))
             k = {'pixelscale': ph['du'], 'shape': [rng.randint(5, 9), rng.randint(5, 9)], 'oversample': rng.choice([1, 2])}
             ws = []
             for q in (qx, py):
@@ -655,6 +652,8 @@ class PurityScenario(Scenario):
     def make_fns(self):
         fns = dict(self.fns)
         fns['check.same_image'] = check_same_image
+        from .optics import h_refit
+        fns['h.refit'] = h_refit
         return fns
 
     def execute(self, L, run):
@@ -735,15 +734,15 @@ class PurityScenario(Scenario):
                 if len(who) > 1:
                     it.probe('shared_dft_shape')
             if ev['fn'] == 'check.same_image':
-                if out.ok and out.value['premise']:
+                if out.ok:
                     it.probe('path_pair')
                     it.probe('check:path')
+                    if not out.value['premise']:
+                        it.probe('path_bookkeeping_differs')     # diagnostic: OPD + recorded tilt of the two planes differ
                     if not out.value['ok']:
                         it.violate('C10.path', {'what': 'refit-after-update'},
-                                   'same plane state reached through construct-then-fit vs fit/update/fit images differently: %s'
+                                   'the same OPD imaged after construct-then-fit and after fit / update / fit gives different fields: %s'
                                    % out.value['detail'], i)
-                else:
-                    it.probe('path_premise_failed')
             return out
 
         it.do_env = do_env
